@@ -29,7 +29,7 @@ def gen(rnd):
     def src(ids_):
         d = {'t': 'source', 'ids': ids_, 'fields': {f: fresh() for f in FIELDS}}
         return d
-    where = rnd.choice(['none', 'source', 'field', 'param', 'field', 'param', 'merge-branch'])
+    where = rnd.choice(['none', 'source', 'field', 'param', 'field', 'param', 'merge-branch', 'zero-arg', 'zero-arg'])
     if where == 'merge-branch':
         parts = [[src(['a'])], [src(['b', 'c'])]]
         spec = [{'t': 'merge', 'parts': parts}]
@@ -49,6 +49,12 @@ def gen(rnd):
             t['fields'][f][1] = t['fields'][f][1] + ['_p']
         if li == pos and where in ('field', 'merge-branch'):
             t['impure'] = [f]
+        if li == pos and where == 'zero-arg':
+            # an impure function without arguments (a clock, a counter, a seed) as a private parameter
+            t['params']['_p'] = [fresh(), []]
+            if '_p' not in t['fields'][f][1]:
+                t['fields'][f][1] = t['fields'][f][1] + ['_p']
+            t['impure'] = ['_p']
         if li == pos and where == 'param':
             if '_p' not in t['params']:
                 t['params']['_p'] = [fresh(), [rnd.choice(FIELDS)]]
@@ -68,7 +74,7 @@ def gen(rnd):
     elif rnd.random() < 0.25:
         spec = [spec[0], {'t': 'chain', 'layers': spec[1:]}] if len(spec) > 2 else spec
     names = sorted(rnd.sample(FIELDS, rnd.randint(1, 3)))
-    kind = rnd.choice(['ram', 'ram-all', 'disk', 'columns', 'filter', 'groupby'])
+    kind = rnd.choice(['ram', 'ram-all', 'disk', 'columns', 'filter', 'groupby', 'join'])
     flag = rnd.random() < 0.35
     if kind == 'ram':
         final = {'t': 'ram', 'names': names, 'size': None, 'impure': flag}
@@ -83,6 +89,11 @@ def gen(rnd):
     elif kind == 'filter':
         names = names[:2]
         final = {'t': 'filter', 'pred': ['t000', names]}
+        flag = False
+    elif kind == 'join':
+        on = rnd.choice(FIELDS)
+        final = {'t': 'join', 'on': on}
+        names = [on]            # Join hashes the graph of the key field on both sides
         flag = False
     else:
         by = rnd.choice(FIELDS)
@@ -114,8 +125,19 @@ def run(case, work):
         except P.Unsupported as e:
             graphs[f] = {'unsupported': str(e)}
     case['graphs'] = graphs
+    def other_side():
+        return P.build([{'t': 'source', 'ids': ['a', 'b', 'c'], 'fields': {case['final']['on']: 's150', 'other_value': 's151'}}], [])[0]
+
+    def attach_final(prefix):
+        if case['final']['t'] == 'join':
+            from connectome import Join
+            return Join(prefix, other_side(), case['final']['on'])
+        return prefix >> P.build_layer(case['final'], [root])
     try:
-        full, _ = P.build(case['spec'] + [case['final']], [root])
+        if case['final']['t'] == 'join':
+            full = attach_final(P.build(case['spec'], [root])[0])
+        else:
+            full, _ = P.build(case['spec'] + [case['final']], [root])
         dir(full)
         case['raised'] = None
     except BaseException as e:  # noqa
@@ -145,7 +167,11 @@ def run(case, work):
         return sp
 
     spec, final = case['spec'], case['final']
-    attempt('prefix>>final', lambda: layer >> P.build_layer(final, [root]))
+    attempt('prefix>>final', lambda: attach_final(layer))
+    if final['t'] == 'join':
+        case['forms'] = forms
+        shutil.rmtree(root, ignore_errors=True)
+        return case
 
     def has_impure(d):
         if d['t'] == 'merge':
